@@ -122,10 +122,10 @@ func ifaceGroups() map[string][]interface{} {
 	nan32, inf32 := float32(math.NaN()), float32(math.Inf(1))
 	f := 2.5
 	return map[string][]interface{}{
-		"nil-bool-string": {nil, true, false, "", "plain", "q\"uote \\ \n \t \u00e9 \x7f", namedStr("named")},
-		"signed":          {0, -1, 23, 24, -24, -25, int8(-128), int8(127), int16(-32768), int32(math.MinInt32), int64(math.MinInt64), int64(math.MaxInt64), int(1) << 53, namedInt(-7)},
-		"unsigned":        {uint(0), uint8(255), uint16(65535), uint32(math.MaxUint32), uint64(1) << 63, uint64(math.MaxUint64), uint(1<<63 + 1), uintptr(9)},
-		"float64-finite":  {0.0, nz, 1.5, -2.5, 0.1, 1e21, 1e20, 1e-6, 1e-7, 5e-324, math.MaxFloat64, -math.MaxFloat64, float64(1 << 53), namedF64(0.25)},
+		"nil-bool-string":   {nil, true, false, "", "plain", "q\"uote \\ \n \t \u00e9 \x7f", namedStr("named")},
+		"signed":            {0, -1, 23, 24, -24, -25, int8(-128), int8(127), int16(-32768), int32(math.MinInt32), int64(math.MinInt64), int64(math.MaxInt64), int(1) << 53, namedInt(-7)},
+		"unsigned":          {uint(0), uint8(255), uint16(65535), uint32(math.MaxUint32), uint64(1) << 63, uint64(math.MaxUint64), uint(1<<63 + 1), uintptr(9)},
+		"float64-finite":    {0.0, nz, 1.5, -2.5, 0.1, 1e21, 1e20, 1e-6, 1e-7, 5e-324, math.MaxFloat64, -math.MaxFloat64, float64(1 << 53), namedF64(0.25)},
 		"float64-nonfinite": {math.NaN(), math.Inf(1), math.Inf(-1), math.Float64frombits(0xfff8000000000001), namedF64(math.NaN()), namedF64(math.Inf(-1))},
 		"float32-finite":    {float32(0), float32(nz), float32(1.5), float32(0.1), float32(16777216), float32(math.MaxFloat32), float32(math.SmallestNonzeroFloat32), float32(1e21), float32(1e-7)},
 		"float32-nonfinite": {nan32, inf32, -inf32, math.Float32frombits(0xffc00001)},
@@ -302,6 +302,36 @@ func programs(c *Ctx) []*cborgen.Prog {
 	for i := 0; i < n; i++ {
 		ps = append(ps, cborgen.Gen(c.R.Fork(), true))
 	}
+	return append(ps, sliceSweep(c, c.R.Fork())...)
+}
+
+// sliceSweep: typed slices with element counts around and beyond the widths of the array header's count
+// (0..23 inline, 1 byte up to 255, 2 bytes up to 65535, then 4 bytes), and counts whose low byte / low 16
+// bits are small again (256..279, 512..535, 65536..65559): the random generator stops at 25 elements.
+// Every definite-length slice method at 256 and at one further count, as event field and in the context;
+// the two cheapest element types (bool, uint8) at every boundary count.
+func sliceSweep(c *Ctx, r *Rng) []*cborgen.Prog {
+	var ps []*cborgen.Prog
+	further := []int{257, 279, 280, 512, 535, 536, 1024, 255}
+	all := []int{23, 24, 255, 256, 257, 279, 280, 511, 512, 535, 536, 65535, 65536, 65537, 65559}
+	for i, kind := range cborgen.SliceKinds {
+		if c.Thorough() {
+			for j, n := range all {
+				if n > 1024 && (kind == "Strs" || kind == "Times" || kind == "Durs" || kind == "Floats32" || kind == "Floats64") {
+					continue
+				}
+				ps = append(ps, cborgen.SliceProg(r, kind, n, (i+j)%2 == 1))
+			}
+			continue
+		}
+		ps = append(ps, cborgen.SliceProg(r, kind, 256, i%2 == 1), cborgen.SliceProg(r, kind, further[i%len(further)], i%2 == 0))
+	}
+	if !c.Thorough() {
+		for j, n := range all {
+			ps = append(ps, cborgen.SliceProg(r, "Bools", n, j%2 == 1), cborgen.SliceProg(r, "Uints8", n, j%2 == 0))
+		}
+	}
+	c.Res.ExtraCoverage["slice_sweep_programs"] = len(ps)
 	return ps
 }
 
@@ -310,7 +340,7 @@ const hdrDec = "From Verif Require Import Base.Prelude Enc.CborEnc Enc.CborDec H
 const hdrJson = "From Verif Require Import Base.Prelude Enc.CborEnc Harness.C09H Harness.C08H.\nOpen Scope N_scope."
 
 func runC08(c *Ctx) {
-	c.Res.Rule = "a case is one logging program of the shared generator (every field method of Event / Context / Array, Dict / Object / EmbedObject / Fields nesting <= 3, context layers, level, message; values restricted to what the property quantifies over: 4/16-byte IPs, 6-byte MACs, canonical prefixes, embedded JSON that is JSON; all times of a program in one location), executed under both build tags from the same seed; corpus first (Uint(1<<63), Uint64(MaxUint64), Bytes with quote/backslash/newline/0xff, Fields with []error, field-less EmbedObject in a context); non-trivial = at least one field besides the level; distinct by the field-list term"
+	c.Res.Rule = "a case is one logging program of the shared generator (every field method of Event / Context / Array, Dict / Object / EmbedObject / Fields nesting <= 3, context layers, level, message; values restricted to what the property quantifies over: 4/16-byte IPs, 6-byte MACs, canonical prefixes, embedded JSON that is JSON; all times of a program in one location), executed under both build tags from the same seed; plus directed programs: every definite-length typed slice method with 256 and more elements (counts around the 1-/2-/4-byte header widths and counts whose low byte or low 16 bits are below 24), and a grid of fractional instants (seconds x nanoseconds, up to years 1066 and 9999 and both sides of the int64-nanosecond range) through Time, Times, Context.Time and Timestamp; corpus first (Uint(1<<63), Uint64(MaxUint64), Bytes with quote/backslash/newline/0xff, Fields with []error, field-less EmbedObject in a context); non-trivial = at least one field besides the level; distinct by the field-list term"
 	ps := programs(c)
 	if zerolog.VerifC08EncIsCBOR() {
 		runBinary(c, ps)
@@ -385,43 +415,107 @@ func runBinary(c *Ctx, ps []*cborgen.Prog) {
 	// known-finding key, everything else on decoded-time-differs.
 	probe := map[string]string{}
 	grid, far := 0, 0
-	for _, secs := range []int64{0, 1, 1700000000, 1<<31 - 1, 1 << 31, 1<<32 + 7, 1<<33 - 1, -1, -1700000000, -(1<<33 - 1), 1 << 33, 1<<33 + 12345, 1 << 34, 1 << 36, 1 << 37, 253402300000, -(1 << 33), -(1 << 35)} {
-		for _, ns := range []int64{1, 999, 1000, 123456789, 500000000, 999999000, 999999999} {
-			w := &capture{}
-			t := time.Unix(secs, ns).UTC()
+	// the instants: powers of two of seconds around 2^31..2^37, calendar years far from the epoch (1066, 1500,
+	// 2300, 2500, 9999) and both sides of the range a count of nanoseconds in an int64 spans (1677-09-21 ..
+	// 2262-04-11, +-9223372036.854775807 s)
+	secsGrid := []int64{0, 1, 1700000000, 1<<31 - 1, 1 << 31, 1<<32 + 7, 1<<33 - 1, -1, -1700000000, -(1<<33 - 1), 1 << 33, 1<<33 + 12345, 1 << 34, 1 << 36, 1 << 37, 253402300000, -(1 << 33), -(1 << 35),
+		9223372035, 9223372036, 9223372037, 9223372038, -9223372035, -9223372036, -9223372037, -9223372038,
+		time.Date(2300, 1, 1, 0, 0, 0, 0, time.UTC).Unix(), time.Date(2500, 3, 4, 3, 6, 7, 0, time.UTC).Unix(),
+		time.Date(1500, 6, 15, 12, 0, 0, 0, time.UTC).Unix(), time.Date(1066, 10, 14, 9, 0, 0, 0, time.UTC).Unix(), time.Date(1, 1, 1, 0, 0, 1, 0, time.UTC).Unix()}
+	// entry points that end in the timestamp encoder; get returns the decoded texts that stand for t
+	type tEntry struct {
+		name string
+		all  bool // every nanosecond value of the grid (otherwise two of them)
+		run  func(w *capture, t time.Time)
+		get  func(m map[string]interface{}) ([]interface{}, bool)
+	}
+	one := func(k string) func(m map[string]interface{}) ([]interface{}, bool) {
+		return func(m map[string]interface{}) ([]interface{}, bool) { v, ok := m[k]; return []interface{}{v}, ok }
+	}
+	tEntries := []tEntry{
+		{"Log().Time(\"t\", T).Send()", true, func(w *capture, t time.Time) { lg := zerolog.New(w); lg.Log().Time("t", t).Send() }, one("t")},
+		{"Log().Times(\"t\", []time.Time{T, T}).Send()", false, func(w *capture, t time.Time) { lg := zerolog.New(w); lg.Log().Times("t", []time.Time{t, t}).Send() },
+			func(m map[string]interface{}) ([]interface{}, bool) {
+				a, ok := m["t"].([]interface{})
+				return a, ok && len(a) == 2
+			}},
+		{"With().Time(\"t\", T).Logger().Log().Send()", false, func(w *capture, t time.Time) { lg := zerolog.New(w).With().Time("t", t).Logger(); lg.Log().Send() }, one("t")},
+		{"TimestampFunc = func() time.Time { return T }; Log().Timestamp().Send()", false, func(w *capture, t time.Time) {
+			old := zerolog.TimestampFunc
+			defer func() { zerolog.TimestampFunc = old }()
+			zerolog.TimestampFunc = func() time.Time { return t }
 			lg := zerolog.New(w)
-			lg.Log().Time("t", t).Send()
-			if len(w.bufs) != 1 {
-				continue
-			}
-			dec, derr := decodeReal(w.bufs[0])
-			var m map[string]string
-			grid++
-			cs := map[string]interface{}{"program": fmt.Sprintf("Log().Time(\"t\", time.Unix(%d, %d).UTC()).Send()", secs, ns), "binary_hex": hex.EncodeToString(w.bufs[0])}
-			if derr != "" || json.Unmarshal(dec, &m) != nil {
-				c.Violate(Violation{Key: "decoded-not-json", Monitor: "time-grid", Desc: "the decoded line of a Time field is not a JSON object of strings: " + derr, Case: cs, Observed: string(dec)})
-				continue
-			}
-			td, err := time.Parse(time.RFC3339Nano, m["t"])
-			if err != nil {
-				c.Violate(Violation{Key: "decoded-time-differs", Monitor: "time-grid", Desc: "the decoded timestamp does not parse: " + err.Error(), Case: cs, Observed: m["t"]})
-				continue
-			}
-			d := td.Sub(t)
-			if d < 0 {
-				d = -d
-			}
-			if d > time.Microsecond {
-				key := "decoded-time-differs"
-				if secs >= 1<<33 || secs <= -(1<<33) {
-					key = "binary-time-float64-precision"
-					far++
-					if len(probe) < 6 {
-						probe[t.Format(time.RFC3339Nano)] = m["t"]
-					}
+			lg.Log().Timestamp().Send()
+		}, one(zerolog.TimestampFieldName)},
+		{"Log().Fields(map[string]interface{}{\"t\": T}).Send()", false, func(w *capture, t time.Time) {
+			lg := zerolog.New(w)
+			lg.Log().Fields(map[string]interface{}{"t": t}).Send()
+		}, one("t")},
+	}
+	for _, secs := range secsGrid {
+		for _, ns := range []int64{1, 999, 1000, 123456789, 500000000, 999999000, 999999999} {
+			for _, en := range tEntries {
+				if !en.all && ns != 123456789 && ns != 500000000 {
+					continue
 				}
-				c.Violate(Violation{Key: key, Monitor: "time-grid", Desc: fmt.Sprintf("Time(\"t\", %s) decodes to %s: %v away from the logged instant (the JSON build with TimeFieldFormat=RFC3339Nano prints the logged instant exactly)", t.Format(time.RFC3339Nano), m["t"], d),
-					Case: cs, Observed: m["t"], Expected: t.Format(time.RFC3339Nano)})
+				w := &capture{}
+				t := time.Unix(secs, ns).UTC()
+				en.run(w, t)
+				if len(w.bufs) != 1 {
+					continue
+				}
+				dec, derr := decodeReal(w.bufs[0])
+				var m map[string]interface{}
+				grid++
+				cs := map[string]interface{}{"program": en.name + fmt.Sprintf(" with T = time.Unix(%d, %d).UTC()", secs, ns), "instant": t.Format(time.RFC3339Nano), "binary_hex": hex.EncodeToString(w.bufs[0])}
+				if derr != "" || json.Unmarshal(dec, &m) != nil {
+					c.Violate(Violation{Key: "decoded-not-json", Monitor: "time-grid", Desc: "the decoded line of a Time field is not a JSON object: " + derr, Case: cs, Observed: string(dec)})
+					continue
+				}
+				texts, ok := en.get(m)
+				if !ok {
+					c.Violate(Violation{Key: "decoded-value-differs", Monitor: "time-grid", Desc: "the decoded line does not carry the timestamp(s) under the key they were logged with", Case: cs, Observed: string(dec)})
+					continue
+				}
+				for _, tx := range texts {
+					txt, isStr := tx.(string)
+					if !isStr {
+						c.Violate(Violation{Key: "decoded-not-json", Monitor: "time-grid", Desc: "the decoded line of a Time field is not a JSON object of strings", Case: cs, Observed: string(dec)})
+						break
+					}
+					td, err := time.Parse(time.RFC3339Nano, txt)
+					if err != nil {
+						c.Violate(Violation{Key: "decoded-time-differs", Monitor: "time-grid", Desc: "the decoded timestamp does not parse: " + err.Error(), Case: cs, Observed: txt})
+						break
+					}
+					d := td.Sub(t)
+					if d < 0 {
+						d = -d
+					}
+					if d <= time.Microsecond {
+						continue
+					}
+					// More than 1 us off.  Beyond 2^33 s the float64 seconds of CBOR tag 1 cannot carry a
+					// microsecond: one unit in the last place of the carried number bounds what that explains
+					// (rounding of secs + nanos*1e-9 is half a unit, the decoder's split adds nanoseconds).
+					// Anything further away is not a precision effect.
+					a := math.Abs(float64(secs)) + 1
+					ulp := time.Duration((math.Nextafter(a, math.Inf(1))-a)*1e9) + 1
+					key := "decoded-time-differs"
+					what := ""
+					if (secs >= 1<<33 || secs <= -(1<<33)) && d <= ulp {
+						key = "binary-time-float64-precision"
+						far++
+						if len(probe) < 6 {
+							probe[t.Format(time.RFC3339Nano)] = txt
+						}
+					} else if secs >= 1<<33 || secs <= -(1<<33) {
+						what = fmt.Sprintf("; float64 seconds resolve %v at this distance from the epoch, so this is not a precision effect", ulp)
+					}
+					c.Violate(Violation{Key: key, Monitor: "time-grid", Desc: fmt.Sprintf("%s: T = %s decodes to %s: %v away from the logged instant (the JSON build with TimeFieldFormat=RFC3339Nano prints the logged instant exactly)%s", en.name, t.Format(time.RFC3339Nano), txt, d, what),
+						Case: cs, Observed: txt, Expected: t.Format(time.RFC3339Nano)})
+					break
+				}
 			}
 		}
 	}
